@@ -859,6 +859,16 @@ def delitem(I, obj, idx):
         except (KeyError, IndexError) as e:
             I.raise_py(type(e), *e.args)
         return
+    from .sym import SDict
+    if isinstance(obj, SDict) and not is_symbolic(idx):
+        from .builtins_model import sdict_get
+        ent = sdict_get(I, obj, idx)
+        if I.path.branch(ent.isnone):
+            I.raise_py(KeyError, idx)
+        # the key is gone afterwards (other keys keep what was learnt about them)
+        kid = ('c', idx)
+        obj.memo[kid] = SOpt(z3.BoolVal(True), ent.v)
+        return
     raise OutOfFragment("delitem on %r" % (obj,))
 
 
